@@ -21,6 +21,22 @@ REPO = os.environ.get("VERIF_REPO", "/repo")
 WORK = os.path.join(ROOT, "_work")
 COQ = os.path.join(ROOT, "coq")
 CACHE = "/var/tmp/dimod-verif"
+COQ_SRC = COQ
+if os.path.realpath(REPO) != "/repo":
+    # A run against another tree (development aid: seeded changes, VERIF_REPO=<worktree>) works on its own copy of
+    # the Coq development, so that the files the translators generate from that tree never mix with those a
+    # concurrent run generates from /repo (and the other way round).  Registered checks always run on ROOT/coq.
+    COQ = os.path.join(CACHE + "-coq", hashlib.sha1(os.path.realpath(REPO).encode()).hexdigest()[:12])
+
+
+def sync_private_coq():
+    """refresh the private copy (sources, compiled files and time stamps) from ROOT/coq; no-op for /repo"""
+    if COQ == COQ_SRC:
+        return
+    os.makedirs(COQ, exist_ok=True)
+    with open(os.path.join(COQ_SRC, ".lock"), "w") as lk:
+        fcntl.flock(lk, fcntl.LOCK_EX)
+        subprocess.run(["rsync", "-a", "--delete", "--exclude", ".lock", COQ_SRC + "/", COQ + "/"], check=False)
 PY = "/venv/bin/python"
 NCPU = min(16, os.cpu_count() or 4)
 
@@ -213,6 +229,7 @@ def run_translators(build):
     """Regenerate coq/theories/Gen/*.v from the source tree. Returns
     (ok, messages, inputs) - fail-closed: any unparsed construct is an error."""
     sys.path.insert(0, os.path.join(ROOT, "translators"))
+    sync_private_coq()
     msgs, inputs, ok = [], [], True
     tdir = os.path.join(ROOT, "translators")
     os.makedirs(os.path.join(COQ, "theories", "Gen"), exist_ok=True)
